@@ -345,3 +345,201 @@ def replay_pub_never_blocks(model, params, role):
         return "pub_stalled_subscriber_inproc\n", (lambda out: "PUBLISHER BLOCKED" in out), \
             "inproc: PUB (SNDHWM 1, default SNDTIMEO) with a SUB (RCVHWM 1) that never calls recv and a healthy SUB; expecting a publish call to block for seconds"
     return None
+
+
+AIE = "socket::patterns::anonymous_ingress::AnonymousIngressEngine"
+PMS = "socket::patterns::ready_pipe_queue::PipeMessageSender"
+
+
+def filtered_enqueue(h):
+    """The subscriber-side filter in front of the SUB socket's receive queue: PipeMessageSender::FilteredAnonymous
+    {try_send_sync, send, try_send_batch} over the real AnonymousIngressEngine / ReadyPipeQueue and the real
+    SubscriptionTrie. A history of subscribe / unsubscribe calls and arrivals (1 message through try_send_sync or
+    the send coroutine, or a batch of 2 through try_send_batch; messages of 1..2 frames, first frame 0..2 symbolic
+    bytes) - after every arrival the queue is read out through recv_multipart and compared with the reference:
+    exactly the messages whose first frame has an active subscription as a prefix at the moment they arrive, whole,
+    in arrival order, once; what did not fit stays in the caller's deque untouched and in order; counters agree."""
+    from .d_c09 import Fut
+    from .d_c02 import _poll_async
+    from .d_c07 import _frames, _flag
+    from ..models import some, none, dur_ns
+    prog = h.it.prog
+    k = h.params.get("ops", 3)
+    tl = h.params.get("topic_len", 1)
+    ml = h.params.get("msg_len", 2)
+    cap = h.params.get("capacity", 1)
+    alphabet = 2
+    trie = Ref(Cell(h.method(TRIE, "new"), "trie"), ())
+    eng = Ref(Cell(h.method(AIE, "new", 4), "ingress"), ())
+    snd = Ref(Cell(h.method(AIE, "register_pipe_filtered", eng, 0, cap, BoxV(trie.cell, trie.path), 1), "sender"), ())
+    h.panic_role = "c12.filter"
+    subs = []
+    def sym_bytes(name, maxlen):
+        n = h.choose(maxlen + 1, name + ".len")
+        bs = []
+        for i in range(n):
+            b = h.byte(f"{name}[{i}]")
+            h.assume(z3.ULT(b, alphabet))
+            bs.append(b)
+        return bs
+    def find(t):
+        for e in subs:
+            if len(e[0]) == len(t) and h.ctx.branch(conj([a == b for a, b in zip(e[0], t)])):
+                return e
+        return None
+    def expected_match(m):
+        exp = False
+        for tb, cnt in subs:
+            if cnt > 0 and len(tb) <= len(m):
+                c = conj([a == b for a, b in zip(tb, m[:len(tb)])])
+                exp = c if exp is False else simp(z3.Or(bl(exp), bl(c)))
+        return h.ctx.branch(exp) if is_sym(exp) else bool(exp)
+    def mk_message(name):
+        """(FrameBatch value, [frames as lists of bytes])"""
+        first = sym_bytes(name, ml)
+        two = h.choose(2, name + ".frames") == 1
+        fb = Ref(Cell(h.method("message::FrameBatch", "new"), "fb"), ())
+        m0 = Ref(Cell(h.method("message::msg::Msg", "from_vec", Seq("vec", list(first))), "m0"), ())
+        if two:
+            fl = h.it.run_body(prog.body(h.it.resolve_fn("message::flags::_::<impl message::flags::MsgFlags>::from_bits_retain", "")), [1])
+            h.method("message::msg::Msg", "set_flags", m0, fl)
+        h.method("message::FrameBatch", "push", fb, m0.load())
+        frames = [first]
+        if two:
+            # the second frame starts with a byte of the alphabet, so that a filter looking at the wrong frame is noticed
+            body = [0x00, 0x7E]
+            h.method("message::FrameBatch", "push", fb, h.method("message::msg::Msg", "from_vec", Seq("vec", list(body))))
+            frames.append(body)
+        return fb.load(), frames
+    zero = some(dur_ns(0))
+    def read_out():
+        out = []
+        for _ in range(4):
+            r = _poll_async(h, AIE, "recv_multipart", [eng, clone_val(zero)])
+            if r.idx != 0:
+                break
+            out.append([_msg_bytes(m) for m in _frames(r.f[0])])
+        return out
+    def same(got, exp):
+        """both are lists of messages, a message a list of frames, a frame a list of bytes (ints or z3 terms)"""
+        if len(got) != len(exp):
+            return False
+        for g, e in zip(got, exp):
+            if len(g) != len(e):
+                return False
+            for gf, ef in zip(g, e):
+                if len(gf) != len(ef):
+                    return False
+                for a, b in zip(gf, ef):
+                    if is_sym(a) or is_sym(b):
+                        if not h.ctx.branch(simp(bv(a, 8) == bv(b, 8))):
+                            return False
+                    elif a != b:
+                        return False
+        return True
+    arrivals = 0
+    for i in range(k):
+        op = h.choose(3, f"op{i}")
+        if op == 0:
+            t = sym_bytes(f"t{i}", tl)
+            h.method(TRIE, "subscribe", trie, _slice(t))
+            e = find(t)
+            if e is None:
+                subs.append([t, 1])
+            else:
+                e[1] += 1
+            continue
+        if op == 1:
+            t = sym_bytes(f"t{i}", tl)
+            h.method(TRIE, "unsubscribe", trie, _slice(t))
+            e = find(t)
+            if e is not None and e[1] > 0:
+                e[1] -= 1
+            continue
+        arrivals += 1
+        path = h.choose(3, f"path{i}")
+        if path in (0, 1):
+            fb, frames = mk_message(f"m{i}")
+            if path == 0:
+                r = h.method(PMS, "try_send_sync", snd, fb)
+                h.check(r.idx == 0, "c12.filter.try-send-on-an-empty-queue-failed")
+            else:
+                f = Fut(h, PMS, "send", [snd, fb])
+                r = f.poll()
+                h.check(r is not None and r.idx == 0, "c12.filter.send-on-an-empty-queue-did-not-complete")
+            exp = [frames] if expected_match(frames[0]) else []
+            got = read_out()
+            h.check(same(got, exp), "c12.filter.delivered-differs-from-matching-messages",
+                    f"{'try_send_sync' if path == 0 else 'send'}: delivered {len(got)} message(s), reference {len(exp)}")
+            h.cover("c12.filter.single-delivered", bool(exp))
+            h.cover("c12.filter.single-dropped", not exp)
+        else:
+            a, fa = mk_message(f"m{i}a")
+            b, fb_ = mk_message(f"m{i}b")
+            dq = Ref(Cell(Seq("vecdeque", [a, b], "message::FrameBatch"), "items"), ())
+            n = h.method(PMS, "try_send_batch", snd, dq)
+            ma, mb = expected_match(fa[0]), expected_match(fb_[0])
+            # reference: walk in order; a matching message is enqueued while there is room (queue empty, capacity cap);
+            # the first matching message without room stops the walk and stays, with everything behind it
+            exp, left, frames_consumed, room = [], [], 0, cap
+            items = [(fa, ma), (fb_, mb)]
+            for j, (fr, m) in enumerate(items):
+                if m and room == 0:
+                    left = [x[0] for x in items[j:]]
+                    break
+                frames_consumed += len(fr)
+                if m:
+                    exp.append(fr)
+                    room -= 1
+            got = read_out()
+            h.check(same(got, exp), "c12.filter.batch-delivered-differs-from-matching-messages",
+                    f"try_send_batch: delivered {len(got)} message(s), reference {len(exp)} (matches: {ma}, {mb}; capacity {cap})")
+            rest = [[_msg_bytes(m) for m in _frames(x)] for x in dq.load().f]
+            h.check(same(rest, left), "c12.filter.batch-leftover-differs", f"left in the caller's deque: {len(rest)}, reference {len(left)}")
+            h.check(n == frames_consumed, "c12.filter.batch-return-value-differs-from-frames-consumed", f"returned {n}, reference {frames_consumed}")
+            h.cover("c12.filter.batch-mixed", ma != mb)
+            h.cover("c12.filter.batch-backpressured", bool(left))
+        h.check(h.method(PMS, "reserved_count", snd) == 0, "c12.filter.reservation-left-behind")
+        h.check(h.method(PMS, "queued_count", snd) == 0, "c12.filter.queued-count-after-reading-everything")
+    h.cover("c12.filter.arrival-after-unsubscribe", arrivals > 0 and any(c == 0 for _, c in subs))
+
+
+def _msg_bytes(m):
+    d = m.f[0]
+    return list(d.f[0].f) if d.idx == 1 else []
+
+
+def replay_filtered_enqueue(model, params, role):
+    """public-API replay (PUB/SUB over tcp) for histories whose arrivals are single-frame messages; batches and
+    two-frame messages have no public-API equivalent that pins the path taken and are reported unreplayed"""
+    if "delivered-differs-from-matching-messages" not in role or "batch" in role:
+        return None
+    d = dict(map(tuple, model.get("_choices", [])))
+    def bs(name):
+        n = d.get(name + ".len", 0)
+        return bytes((model.get(f"{name}[{i}]", 0) or 0) & 0xFF for i in range(n))
+    ops, subs, want = [], {}, []
+    for i in range(params.get("ops", 3)):
+        if f"op{i}" not in d:
+            break
+        op = d[f"op{i}"]
+        if op == 0:
+            t = bs(f"t{i}")
+            ops.append("s:" + t.hex())
+            subs[t] = subs.get(t, 0) + 1
+        elif op == 1:
+            t = bs(f"t{i}")
+            ops.append("u:" + t.hex())
+            if subs.get(t, 0) > 0:
+                subs[t] -= 1
+        else:
+            if d.get(f"path{i}") == 2 or d.get(f"m{i}.frames") == 1:
+                return None
+            m = bs(f"m{i}")
+            ops.append("m:" + m.hex())
+            want.append("match " + str(any(c > 0 and m.startswith(tp) for tp, c in subs.items())).lower())
+    def pred(out):
+        got = [l.strip() for l in out.splitlines() if l.startswith("match ")]
+        return got != want
+    return "sub_history " + " ".join(ops) + "\n", pred, f"the history through the public API (PUB/SUB over tcp); reference expects {want}"
+REPLAY_INCONCLUSIVE_WHEN_NOT_REPRODUCED = {"filtered_enqueue": True}      # the public API does not pin which of the three enqueue paths a live session takes
